@@ -93,15 +93,28 @@ def cachePageLimit (dbg : Bool) (sizeMiB : Nat) : Outcome Unit Nat :=
   if dbg && decide (sizeMiB * 1024 * 1024 > usizeMax) then .panic "attempt to multiply with overflow"
   else .ok (sizeMiB * 1024 * 1024 % 2 ^ 64 / PAGE_SIZE)
 
+/-- `iter.map(f).collect()` where `f` may panic: the first panic wins -/
+def mapO {α β : Type} (f : α → Outcome Unit β) : List α → Outcome Unit (List β)
+  | [] => .ok []
+  | x :: xs =>
+    match f x with
+    | .ok y =>
+      match mapO f xs with
+      | .ok ys => .ok (y :: ys)
+      | .panic s => .panic s
+      | .err e => .err e
+    | .panic s => .panic s
+    | .err e => .err e
+
 /-- `shard_regions(num_shards)`: `(start, count)` per shard; the two `ChildPageIndex::new(..).unwrap()` -/
 def shardRegions (n : Nat) : Outcome Unit (List (Nat × Nat)) :=
   if n = 0 then .panic "division by zero" else
-  (List.range n).mapM fun i =>
+  mapO (fun i =>
     let r := Shards.region n i
     if r.1 % 256 > 63 then .panic "ChildPageIndex::new(start).unwrap()"
     else if r.1 + r.2 = 0 then .panic "start + count - 1 underflow"
     else if (r.1 + r.2 - 1) % 256 > 63 then .panic "ChildPageIndex::new(end).unwrap()"
-    else .ok r
+    else .ok r) (List.range n)
 
 /-- `make_shards(num_shards, page_cache_size)` from the page limit on -/
 def makeShardsPages {P : Type} (n limitPages : Nat) : Outcome Unit (List (Shard P)) :=
@@ -111,9 +124,9 @@ def makeShardsPages {P : Type} (n limitPages : Nat) : Outcome Unit (List (Shard 
   | .panic s => .panic s
   | .err e => .err e
   | .ok regions =>
-    regions.mapM fun (r : Nat × Nat) =>
+    mapO (fun (r : Nat × Nat) =>
       if perChild * r.2 = 0 then .panic "NonZeroUsize::new(page_limit).unwrap()"
-      else .ok { fixed := [], cached := Lru.unbounded, pageLimit := perChild * r.2, count := r.2 }
+      else .ok { fixed := [], cached := Lru.unbounded, pageLimit := perChild * r.2, count := r.2 }) regions
 
 def makeShards {P : Type} (dbg : Bool) (n sizeMiB : Nat) : Outcome Unit (List (Shard P)) :=
   match cachePageLimit dbg sizeMiB with
